@@ -6,6 +6,10 @@
 //	rt/<Type>   encode + round trip of reflected per-member alphabets x custom maps
 //	dec/<Type>  JSON shape grammar applied to every registered member, dec/leaf for
 //	            the codec's leaf types on their own
+//	tol/*       the tolerant forms with GENERATED alphabets (locale subtags, locale lists,
+//	            RFC 3339 components, number spellings, boolean near misses, lists with one
+//	            odd member) in every member of that form of every type, three contexts
+//	            (tol_test.go, tolref_test.go)
 //	aes         sealing: length x pattern x key x API x attack, full product
 //	aes-keys    sealing under related keys: base x seal-key variant x open-key variant x
 //	            length x pattern x API (relkeys_test.go)
@@ -26,12 +30,15 @@ func TestMain(m *testing.M) { engine.Main(m) }
 
 func TestCheck(t *testing.T) {
 	c := engine.Start(t, "C12")
-	c.SetRule("E1 per claims type: (custom-map alphabet, incl. one colliding key per registered JSON member) x all <=k member deviations from the zero value, Marshal+Unmarshal of the real code judged by a reference codec; per type every member x JSON shape grammar (<=k members at once) judged by the per-category decoding contract; AES sealing full product length x pattern x key x api x attack, and base key x seal-key variant x open-key variant (cut / zero- or otherwise extended / one byte flipped) x length x pattern x api, and op.NewAESCrypto keys differing in one bit per byte position; distinct = (part, oracle rule, observed outcome class)")
+	c.SetRule("E1 per claims type: (custom-map alphabet, incl. one colliding key per registered JSON member) x all <=k member deviations from the zero value, Marshal+Unmarshal of the real code judged by a reference codec; per type every member x JSON shape grammar (<=k members at once) judged by the per-category decoding contract; tolerant forms from generators (locale = language x script x region x variant x separator with known / unknown / malformed values per subtag, locale lists = form x length/position x one generated member, RFC 3339 strings = <=2 deviating components of year, month-day, separator, time, fraction, zone, numbers = spelling x sign x magnitude x notation, booleans = word x casing x wrapping, lists = length/position x kind of the one odd member) decoded in every member of that form of every claims / request / discovery type, in the leaf type and through Locales.UnmarshalText, alone / between valid siblings / as second occurrence of a duplicated member: error, zero value, or exactly the value the document contains, and re-encoding gives that value back; AES sealing full product length x pattern x key x api x attack, and base key x seal-key variant x open-key variant (cut / zero- or otherwise extended / one byte flipped) x length x pattern x api, and op.NewAESCrypto keys differing in one bit per byte position; distinct = (part, oracle rule, observed outcome class)")
 	c.Assume("encoding/json (generic map decoding), encoding/base64, crypto/aes and golang.org/x/text/language.Parse are correct (they are the reference for document equality, raw base64url and BCP47 validity)",
 		"oidc.Time values are enumerated within +-2^53 s (JSON numbers are float64 in this codec)",
 		"a custom key that collides with a registered member that is NOT set is judged Either (the statement only speaks about set members)",
 		"the round trip is judged against the value as it stands after Marshal (IntrospectionResponse.MarshalJSON fills username from preferred_username)",
 		"empty list == absent list, nil *Locale == undetermined locale, SpaceDelimitedArray compared in its joined form",
+		"a locale string denotes the tag x/text/language parses from it, in any of that library's canonical spellings (language.Tag.UnmarshalText keeps iw, language.Parse answers he: both are the document's value); a tag it reports as well-formed but unknown or as malformed denotes nothing",
+		"an RFC 3339 string is one that both time.Parse(time.RFC3339) and the grammar of RFC 3339 section 5.6 accept; where the two differ (lower-case t/z, leap second :60 only in the RFC; one-digit hour, ',' fraction, offsets +24:00 / +01:60 only in Go) the outcome is open between error, zero and either reading",
+		"a member given twice may hold what either occurrence denotes (for plain lists: any mix of their elements, which is what encoding/json produces)",
 		"sealing: a wrong key / damaged IV must give an error or a different plaintext only for plaintexts of >=16 bytes (for shorter ones a collision has probability >= 2^-120 and the IV is random)")
 
 	// pre-compute member lists (read-only afterwards)
@@ -86,6 +93,10 @@ func TestCheck(t *testing.T) {
 		NewWorker: func(int) func(engine.Vec) engine.Result {
 			return func(v engine.Vec) engine.Result { return runLeaf(ls, v) }
 		}})
+
+	for _, g := range tolGens(c.Thorough()) {
+		tolPart(c, g)
+	}
 
 	as := aesSpace(c.Thorough())
 	c.RunE1(engine.E1{Part: "aes", Space: as, K: len(as), Skip: aesSkip(as),
